@@ -135,6 +135,20 @@ end Cpu.GoTie
 namespace Cpu.GoTie
 open Cpu Cpu.GoPrim
 
+theorem flagOf_shr7 (f : U8) : flagOf (f >>> 7) = f.getLsbD 7 := by revert f; decide
+theorem flagOf_lo8_shr15_raw (w : U16) : flagOf (lo8 (w >>> 15)) = w.getLsbD 15 := by
+  have h := flagOf_lo8_shr15 w
+  have e : lo8 (w >>> 15) &&& 1#8 = lo8 (w >>> 15) := by
+    apply BitVec.eq_of_getLsbD_eq; intro i hi
+    simp only [BitVec.getLsbD_and]
+    by_cases h0 : i = 0
+    · subst h0; simp
+    · have : (lo8 (w >>> 15)).getLsbD i = false := by
+        unfold lo8; simp only [BitVec.getLsbD_setWidth, BitVec.getLsbD_ushiftRight]
+        have : w.getLsbD (15 + i) = false := BitVec.getLsbD_of_ge _ _ (by omega)
+        simp [this]
+      simp [this]
+  rw [e] at h; exact h
 theorem flagOf_shr' (f : U8) (i : Nat) : flagOf ((f >>> i) &&& (1 : U8)) = f.getLsbD i := flagOf_shr f i
 theorem flagOf_and1' (f : U8) : flagOf (f &&& (1 : U8)) = f.getLsbD 0 := flagOf_and1 f
 theorem flagOf_lo8_shr15' (w : U16) : flagOf (lo8 (w >>> 15) &&& (1 : U8)) = w.getLsbD 15 := flagOf_lo8_shr15 w
@@ -151,7 +165,7 @@ macro "gosym" "[" ls:Lean.Parser.Tactic.simpLemma,* "]" : tactic => `(tactic|
   (simp only [bind_assoc, bind_pure_unit, bind_pure', ite_bind, ite_run, modify_bind, get_bind, Cpu.pure_bind, modify_run, pure_run, get_run,
       eaRead_bind', eaRead_run', eaWrite_bind', eaWrite_run', Cpu.nRead, Cpu.nWrite, rdEA, wrEA, lin_go, mk16_go, $ls,*]
    repeat' split
-   all_goals (try simp_all [bit7_eq, bit15_eq, bit7_ne, bit15_ne, bit6_eq, bit6_ne, bit14_eq, bit14_ne, flagOf_shr, flagOf_and1, flagOf_lo8_shr15, flagOf_lo8_and1, lo8_shr15_bit0, lo8_and1_bit0, $ls,*])
+   all_goals (try simp_all [bit7_eq, bit15_eq, bit7_ne, bit15_ne, bit6_eq, bit6_ne, bit14_eq, bit14_ne, flagOf_shr, flagOf_and1, flagOf_lo8_shr15, flagOf_lo8_and1, flagOf_shr7, flagOf_lo8_shr15_raw, lo8_shr15_bit0, lo8_and1_bit0, $ls,*])
    all_goals (try (with_reducible rfl))))
 
 end Cpu.GoTie
@@ -287,7 +301,7 @@ macro "gorun" "[" ls:Lean.Parser.Tactic.simpLemma,* "]" : tactic => `(tactic|
       | (with_reducible apply sp_step _ spOnly_pull; intro _ s' _ hsp; obtain ⟨r', m'⟩ := s'; dsimp only at hsp; subst hsp)
       | (with_reducible apply sp_step _ spOnly_pull16; intro _ s' _ hsp; obtain ⟨r', m'⟩ := s'; dsimp only at hsp; subst hsp)
       | (with_reducible apply bind_congr_run; intro _ _))
-   all_goals (try simp_all [bit7_eq, bit15_eq, bit7_ne, bit15_ne, bit6_eq, bit6_ne, bit14_eq, bit14_ne, flagOf_shr, flagOf_and1, flagOf_lo8_shr15, flagOf_lo8_and1, lo8_shr15_bit0, lo8_and1_bit0, $ls,*])
+   all_goals (try simp_all [bit7_eq, bit15_eq, bit7_ne, bit15_ne, bit6_eq, bit6_ne, bit14_eq, bit14_ne, flagOf_shr, flagOf_and1, flagOf_lo8_shr15, flagOf_lo8_and1, flagOf_shr7, flagOf_lo8_shr15_raw, lo8_shr15_bit0, lo8_and1_bit0, $ls,*])
    all_goals (try (with_reducible rfl))))
 
 end Cpu.GoTie
